@@ -10,7 +10,10 @@ from common import Rng, frac_of, enc_exact, enc_round, f64_bits
 def prepare(backends=("f64", "dec"), bins=("x_core",), profile="dev"):
     env = {}
     for b in backends:
-        paths = fw.build_bins(b, list(bins), profile)
+        paths = dict(fw.build_bins(b, list(bins), profile))
+        if "x_core" in paths and profile == "dev":
+            # the same executor with the library's "std" feature off (a fraction of every core workload runs on it)
+            paths["x_core_nostd"] = fw.build_bins(b, ["x_core"], nostd=True)["x_core"]
         env[b] = {"bins": paths, "reg": registry.load(b, paths) if "x_core" in paths else None}
     return env
 
@@ -87,8 +90,9 @@ def unit_pairs(entry, include_diag=True):
     return [(i, j) for i in range(n) for j in range(n) if include_diag or i != j]
 
 
-def split_tasks(env, types_filter, per="type"):
-    """One task per (backend, type)."""
+def split_tasks(env, types_filter, per="type", nostd=True):
+    """One task per (backend, type), plus one per type on the no_std build of the executor (the caller's
+    workload size "n" is cut to a quarter for those by the check driver)."""
     tasks = []
     for b, e in env.items():
         reg = e["reg"]
@@ -98,6 +102,8 @@ def split_tasks(env, types_filter, per="type"):
             if not types_filter(ty, ent):
                 continue
             tasks.append({"backend": b, "ty": ty, "entry": ent, "bin": e["bins"]["x_core"]})
+            if nostd and "x_core_nostd" in e["bins"] and not ty.startswith("astro::"):
+                tasks.append({"backend": b, "ty": ty, "entry": ent, "bin": e["bins"]["x_core_nostd"], "lib": "no_std"})
     return tasks
 
 
